@@ -27,7 +27,8 @@ RULE = ("(model, parameters, small-distance policy, setter history of 0-10 "
         "input form, has-small-distance); non-trivial = at least one distance "
         "decided.  "
         "Queries include exact zero distances (scalar and inside arrays). "
-        "Integer angle arrays also as int16 / int8 / uint8; half of the second queries repeat the distances of the first after the setters. ")
+        "Integer angle arrays also as int16 / int8 / uint8; half of the second queries repeat the distances of the first after the setters. "
+        "Another object of the same class is configured between two queries of the model under test. ")
 ASSUMPTIONS = ["shadowing is off (use_shadow_bool False): it is random by design",
                "Okumura-Hata distances may leave [1,20] km (the model only warns)"]
 
@@ -399,6 +400,22 @@ def case_model(ctx, rng, idx):
                 handle = not handle
                 m.handle_small_distances_bool = handle
                 hist = hist + ["handle="]
+    # another model object of the same class, configured and re-configured in
+    # between two queries of THIS one, must not change what this one answers
+    try:
+        dq = np.array([0.05, 0.4, 1.7, 9.0]) if kind != "metis" else np.array([3.0, 20.0, 75.0])
+        m.handle_small_distances_bool = True
+        before = np.array(m.calc_path_loss_dB(dq.copy()), dtype=float, copy=True)
+        p2 = initial_params(kind, rng)
+        other = make(kind, dict(p2), True)
+        apply_history(ctx, kind, other, p2, rng, int(rng.integers(1, 4)))
+        after = np.array(m.calc_path_loss_dB(dq.copy()), dtype=float, copy=True)
+        ctx.ev("values-vs-fresh-scalar", np.array_equal(before, after),
+               cls="changed-by-configuring-another-object",
+               detail={"model": kind, "params": p, "other_params": p2, "before": before,
+                       "after": after})
+    except RuntimeError:
+        ctx.tally("other-object-check:query-refused")
     ctx.sample(kind, {"model": kind, "final_params": p, "history": hist,
                       "form": form, "d_head": np.asarray(D).ravel()[:3]})
 
